@@ -312,14 +312,14 @@ Section AEAD.
           * rewrite Hw, enc_frames_app, <- Hn. f_equal. unfold enc_frames. now rewrite E1.
           * rewrite app_length, iter_inc_add, <- Hn.
             rewrite <- seal_frames_snd with (key := c_key c). now rewrite E1.
-          * rewrite concat_app, split_frames_concat, !app_assoc. f_equal. now rewrite <- !app_assoc.
+          * rewrite concat_app, split_frames_concat. now rewrite <- !app_assoc.
       - destruct (read (c_key c) (c_rst c) (c_wire c) (c_closed c) size) as [[res st'] w'] eqn:E1.
         intros E; inversion E; subst; clear E. cbn [out_data op_written c_closed]. rewrite app_nil_r.
         rewrite Hw in E1.
         destruct (read_honest _ _ _ _ _ Hok _ _ _ E1) as (ps' & Hw' & Hok' & Hav & Hit & Hres & _).
         split; [|split; [exists (c_closed c); exact Hres|reflexivity]].
         exists ps'. cbn [c_wire c_key c_rst c_wnonce]. split; [exact Hok'|]. split; [exact Hw'|].
-        split; [now rewrite Hit|]. rewrite <- app_assoc, <- Hav. exact HW.
+        split; [now rewrite Hit|]. rewrite <- app_assoc, <- Hav. reflexivity.
       - intros E; inversion E; subst; clear E. cbn. rewrite !app_nil_r. split; [|split; [exact I|reflexivity]].
         exists ps. now repeat split.
     Qed.
